@@ -10,9 +10,14 @@
    every argument; at run time it may answer NotImplemented).
    Names are ids: 2i / 2i+1 = forward / reflected dunder of the i-th binary operator of + - * / // % ** << >>
    & | ^, 24 __getitem__, 25 __neg__, 26 __call__, >= 28 attribute names.
-   The explicit exclusions excl_fp_* / excl_mc_bin (coq/Ops/Model.v) are the listed findings F1..F5. *)
+   The explicit exclusions excl_fp_* / excl_mc_bin (coq/Ops/Model.v) are the listed findings F1..F5.
+   Extension (coq/Ops/Ext.v; second half of this file): 30..35 __lt__ __le__ __gt__ __ge__ __eq__ __ne__,
+   36 __contains__, 37+i the in-place dunder of operator i, 49 __pos__, 50 __invert__, 51 __bool__, 52 __len__,
+   53 __iter__, 54 __setitem__, 55 __delitem__; NATIVE = what compare.cmp_rel answers before any dunder is looked up (observed on the real VM and
+   regenerated), HARD = the builtin in-place dunders whose rejection ends the operation (observed under CPython). *)
 From Coq Require Import List Bool PeanoNat.
 From PV Require Import Ops.Model Generated.C14_Builtins Ops.Proofs Ops.Closed.
+From PV Require Import Ops.Ext Ops.ExtProofs Ops.ExtClosed.
 Import ListNotations.
 
 (* The closed obligations over the regenerated builtin rows, re-decided by vm_compute on every run:
@@ -85,7 +90,7 @@ Print Assumptions neg_mistake_caught.
 
 (* ... a missing attribute or method on a builtin (public names) or user-class (any name) instance ... *)
 Theorem missing_attr_caught : forall (UT UR : table) x n,
-  user_class_ok UR UT x -> (c14_nb <=? x) || (N_NEG <=? n) = true ->
+  user_class_ok UR UT x -> (c14_nb <=? x) || ((N_NEG <=? n) && negb (is_new n)) = true ->
   attr (RT UR) x n = Err -> attr (PY UT) x n = Err /\ mcall (PY UT) x n = Err.
 Proof. exact missing_attr_caught_inst. Qed.
 Print Assumptions missing_attr_caught.
@@ -156,4 +161,161 @@ Example ex_verdicts :
   attr (PY ex_py) 15 202 = Ok 14 202 /\ mcall (PY ex_py) 15 201 = Ok 14 201 /\ mcall (RT ex_rt) 15 200 = Err /\
   binop_py (PY ex_py) 15 N_GETITEM C_INT = Ok 14 24 /\
   binop_py (PY ex_py) C_NONE N_OR C_NONE = OkUnion /\ binop_c (RT ex_rt) C_NONE N_OR C_NONE = Err.
+Proof. vm_compute. repeat split; reflexivity. Qed.
+
+(* ========================================================================================== *)
+(* Extension: comparison operators, membership tests, in-place operators, +x ~x not x.
+   None of them is among the mistakes pytype advertises (property text, 2nd sentence), so there is no
+   mistake_caught theorem for them; the *_missed examples below record that such mistakes are indeed not all
+   reported. *)
+
+(* The closed obligations over the regenerated rows / native-comparison table / hard in-place table. *)
+Theorem ext_tables_faithful :
+  cmp_pair_faithful py_rows rt_rows native_tbl = true /\ iop_pair_faithful py_rows rt_rows rt_hard = true /\
+  in_pair_faithful py_rows rt_rows = true /\ store_pair_faithful py_rows rt_rows = true /\
+  un_faithful py_rows rt_rows = true /\
+  ucol2_faithful py_rows rt_rows = true /\ rt_cmp_rejects_users rt_rows = true /\
+  native_user_ok native_tbl (length py_rows) = true /\ py_cmp_accepts_users py_rows = true /\
+  contains_presence py_rows rt_rows = true.
+Proof.
+  exact (conj cmp_pair_faithful_holds (conj iop_pair_faithful_holds (conj in_pair_faithful_holds
+        (conj store_pair_faithful_holds (conj un_faithful_holds (conj ucol2_faithful_holds (conj rt_cmp_rejects_users_holds
+        (conj native_user_ok_holds (conj py_cmp_accepts_users_holds contains_presence_holds))))))))).
+Qed.
+Print Assumptions ext_tables_faithful.
+
+(* General form of the comparison theorem: any tables that pass the closed checks, any user part. *)
+Theorem cmp_reported_is_real_general : forall rowsT rowsR ntbl UT UR x n y,
+  shape_ok rowsT rowsR = true -> cmp_pair_faithful rowsT rowsR ntbl = true ->
+  ucol2_faithful rowsT rowsR = true -> obj_faithful rowsT rowsR = true ->
+  rt_cmp_rejects_users rowsR = true -> native_user_ok ntbl (length rowsT) = true ->
+  py_cmp_accepts_users rowsT = true ->
+  user_ok (length rowsT) UR UT x -> user_ok (length rowsT) UR UT y ->
+  In n cmp_names ->
+  (length rowsT <= x -> length rowsT <= y -> succ (mk_table rowsR UR) y x (swapped n) = false) ->
+  cmp_py (mk_table rowsT UT) (native_of ntbl (length rowsT)) x n y = Err ->
+  cmp_c (mk_table rowsR UR) x n y = Err.
+Proof. exact cmp_reported_is_real_lemma. Qed.
+Print Assumptions cmp_reported_is_real_general.
+
+(* No false positive on x < y, x <= y, x > y, x >= y, x == y, x != y.  PARTIAL: when BOTH operands are instances
+   of user classes, the reflected comparison of the right operand must not answer -- pytype has no reflected
+   comparison (slots.REVERSE_NAME_MAPPING has no entry for __lt__ ...), see cmp_reported_is_real_refuted. *)
+Theorem cmp_reported_is_real_partial : forall (UT UR : table) x n y,
+  user_class_ok UR UT x -> user_class_ok UR UT y -> In n cmp_names ->
+  (c14_nb <= x -> c14_nb <= y -> succ (RT UR) y x (swapped n) = false) ->
+  cmp_py (PY UT) NATIVE x n y = Err -> cmp_c (RT UR) x n y = Err.
+Proof. exact cmp_reported_is_real_inst. Qed.
+Print Assumptions cmp_reported_is_real_partial.
+
+(* == and != are never reported, whatever the operands (and cmp_c never fails on them: identity fall-back). *)
+Theorem eqne_never_reported : forall (UT UR : table) x n y,
+  In n cmp_names -> is_eqne n = true ->
+  is_err (cmp_py (PY UT) NATIVE x n y) = false /\ is_err (cmp_c (RT UR) x n y) = false.
+Proof. exact (fun UT UR x n y Hn He => conj (cmp_eqne_inst UT x n y Hn He) (cmp_c_eqne (RT UR) x n y He)). Qed.
+Print Assumptions eqne_never_reported.
+
+(* Without the side condition the statement is false:
+     class A:  def __lt__(self, o: int): ...   (returns NotImplemented for anything else)
+     class B:  def __gt__(self, o): ...
+   A() < B() is answered by B.__gt__ at run time; pytype sees A.__lt__ reject a B and reports. *)
+Definition rf_py : table := user_table c14_nb [
+  user_cls 14 [14; 0] [(30, (false, acc_only [1])); (37, (false, acc_only [1]))] None;
+  user_cls 15 [15; 0] [(32, (false, acc_all)); (1, (false, acc_all))] None].
+Definition rf_rt : table := rf_py.
+
+Lemma rf_hyp : user_class_ok rf_rt rf_py 14 /\ user_class_ok rf_rt rf_py 15.
+Proof.
+  unfold user_class_ok, user_ok, c14_nb. split.
+  - intros _. split; [reflexivity|]. split.
+    + exists [14]. split; [reflexivity|repeat constructor].
+    + intros k Hin Hk. simpl in Hin. destruct Hin as [<-|[<-|[]]]; [|exfalso; apply (Nat.nle_succ_0 _ Hk)].
+      split; [own_sim_tac|inst_sim_tac].
+  - intros _. split; [reflexivity|]. split.
+    + exists [15]. split; [reflexivity|repeat constructor].
+    + intros k Hin Hk. simpl in Hin. destruct Hin as [<-|[<-|[]]]; [|exfalso; apply (Nat.nle_succ_0 _ Hk)].
+      split; [own_sim_tac|inst_sim_tac].
+Qed.
+
+Theorem cmp_reported_is_real_refuted : exists (UT UR : table) x n y,
+  user_class_ok UR UT x /\ user_class_ok UR UT y /\ In n cmp_names /\
+  cmp_py (PY UT) NATIVE x n y = Err /\ cmp_c (RT UR) x n y <> Err.
+Proof.
+  exists rf_py, rf_rt, 14, N_LT, 15. destruct rf_hyp as [H1 H2].
+  split; [exact H1|]. split; [exact H2|]. split; [vm_compute; tauto|].
+  split; [vm_compute; reflexivity|vm_compute; discriminate].
+Qed.
+Print Assumptions cmp_reported_is_real_refuted.
+
+(* No false positive on `item in seq` / `item not in seq`: no exclusion, all class tables. *)
+Theorem in_reported_is_real : forall (UT UR : table) i q,
+  user_class_ok UR UT i -> user_class_ok UR UT q ->
+  in_py (PY UT) i q = Err -> in_c (RT UR) i q = Err.
+Proof. exact in_reported_is_real_inst. Qed.
+Print Assumptions in_reported_is_real.
+
+(* In-place operators.  On two builtin values: no false positive (minus F7).  PARTIAL when a user class is
+   involved: if pytype finds an in-place dunder on the left operand, the plain binary operator must fail too --
+   vm_utils.call_inplace_operator reports a failed __iop__ call without trying __op__ / __rop__ (finding F6). *)
+Theorem inplace_reported_is_real_partial : forall (UT UR : table) x n y,
+  user_class_ok UR UT x -> user_class_ok UR UT y -> In n arith_names -> excl_fp_iop x n y = false ->
+  ((x <? c14_nb) && (y <? c14_nb) = false -> lookup (PY UT) x (iname n) <> None -> binop_c (RT UR) x n y = Err) ->
+  inplace_py (PY UT) x n y = Err -> inplace_c (RT UR) HARD x n y = Err.
+Proof. exact inplace_reported_is_real_inst. Qed.
+Print Assumptions inplace_reported_is_real_partial.
+
+(* ... and the side condition is needed:  v = [1]; v += B()  with B.__radd__ runs; pytype reports. *)
+Theorem inplace_reported_is_real_refuted : exists (UT UR : table) x n y,
+  user_class_ok UR UT x /\ user_class_ok UR UT y /\ In n arith_names /\ excl_fp_iop x n y = false /\
+  inplace_py (PY UT) x n y = Err /\ inplace_c (RT UR) HARD x n y <> Err.
+Proof.
+  exists rf_py, rf_rt, C_LIST, N_ADD, 15. destruct rf_hyp as [H1 H2].
+  split; [intros C; exfalso; vm_compute in C; repeat (apply le_S_n in C); exact (Nat.nle_succ_0 _ C)|].
+  split; [exact H2|]. split; [vm_compute; tauto|]. split; [reflexivity|].
+  split; [vm_compute; reflexivity|vm_compute; discriminate].
+Qed.
+Print Assumptions inplace_reported_is_real_refuted.
+
+(* No false positive on item assignment x[k] = v (v an int literal) and deletion del x[k]: all class tables,
+   minus F12 (del d[k] on a dict: KeyError at run time, reported by pytype). *)
+Theorem store_reported_is_real : forall (UT UR : table) x n k,
+  user_class_ok UR UT x -> user_class_ok UR UT k -> In n store_names -> excl_fp_store x n = false ->
+  store_py (PY UT) x n k = Err -> store_c (RT UR) x n k = Err.
+Proof. exact store_reported_is_real_inst. Qed.
+Print Assumptions store_reported_is_real.
+
+(* No false positive on +x and ~x; `not x` is never reported. *)
+Theorem un_reported_is_real : forall (UT UR : table) x n,
+  user_class_ok UR UT x -> In n un_names -> call0 (PY UT) x n = Err -> call0 (RT UR) x n = Err.
+Proof. exact un_reported_is_real_inst. Qed.
+Print Assumptions un_reported_is_real.
+
+Theorem not_never_reported : forall (UT : table) x, not_py (PY UT) x <> Err.
+Proof. intros UT x. discriminate. Qed.
+Print Assumptions not_never_reported.
+
+(* Non-vacuity and verdicts of the extension (classes of the first half: 14 A, 15 B(A), 16 F; here rf_*:
+   14 A with annotated __lt__ / __iadd__, 15 B with __gt__ and __radd__). *)
+Example ext_verdicts :
+  (* 1 < "a": compared natively by pytype, reported; TypeError.   1 < [1]: TypeError, not reported (object.__lt__
+     of the stub accepts anything).  1 in "a": TypeError, not reported.  These are mistakes the property does not claim
+     (so is `~1.5`, unreported because builtins.pytd gives float an __invert__: fixes/C14-float-has-no-invert.patch;
+     not asserted here so that the file builds on the fixed tree too). *)
+  cmp_py (PY rf_py) NATIVE C_INT N_LT C_STR = Err /\ cmp_c (RT rf_rt) C_INT N_LT C_STR = Err /\
+  cmp_c (RT rf_rt) C_INT N_LT C_LIST = Err /\ is_err (cmp_py (PY rf_py) NATIVE C_INT N_LT C_LIST) = false /\
+  in_c (RT rf_rt) C_INT C_STR = Err /\ is_err (in_py (PY rf_py) C_INT C_STR) = false /\
+  (* 1 in A(): no __contains__/__iter__/__getitem__: reported and real;  +"a", ~"a": reported and real *)
+  in_py (PY rf_py) C_INT 14 = Err /\ in_c (RT rf_rt) C_INT 14 = Err /\
+  call0 (PY rf_py) C_STR N_POS = Err /\ call0 (RT rf_rt) C_STR N_POS = Err /\
+  (* B() > A(): B.__gt__;  A() < 1: A.__lt__;  A() == B(): identity fall-back;  v = A(); v += 1: A.__iadd__ *)
+  cmp_c (RT rf_rt) 15 N_GT 14 = Ok 15 32 /\ cmp_py (PY rf_py) NATIVE 14 N_LT C_INT = Ok 14 30 /\
+  cmp_c (RT rf_rt) 14 N_EQ 15 = OkPlain /\ inplace_c (RT rf_rt) HARD 14 N_ADD C_INT = Ok 14 37 /\
+  (* d = {1: 2}; d |= B(): dict.__ior__ raises, B.__ror__ is never tried (HARD);  s = {1}; s |= 1.5: TypeError both *)
+  inplace_c (RT rf_rt) HARD C_DICT N_OR 15 = Err /\ inplace_py (PY rf_py) C_DICT N_OR 15 = Err /\
+  inplace_c (RT rf_rt) HARD C_SET N_OR C_FLOAT = Err /\ inplace_py (PY rf_py) C_SET N_OR C_FLOAT = Err /\
+  (* (1,)[0] = 1, del "a"[0], B()[1] = 1: reported and real;  [1][0] = 1: fine on both sides *)
+  store_py (PY rf_py) C_TUPLE N_SETITEM C_INT = Err /\ store_c (RT rf_rt) C_TUPLE N_SETITEM C_INT = Err /\
+  store_py (PY rf_py) C_STR N_DELITEM C_INT = Err /\ store_c (RT rf_rt) C_STR N_DELITEM C_INT = Err /\
+  store_py (PY rf_py) 15 N_SETITEM C_INT = Err /\ store_c (RT rf_rt) 15 N_SETITEM C_INT = Err /\
+  is_err (store_py (PY rf_py) C_LIST N_SETITEM C_INT) = false /\ is_err (store_c (RT rf_rt) C_LIST N_SETITEM C_INT) = false.
 Proof. vm_compute. repeat split; reflexivity. Qed.
